@@ -204,8 +204,35 @@ def design_check(tier, cov):
                                   f"{res.invariant_violated} {res.error}")
 
 
+def _corrupt(ok, how):
+    '''binding demonstration: corrupt the recorded trace of one unit
+    (PV_C04_CORRUPT=drop removes the Declare event of a referenced name, =dup
+    records one Declare twice, =swap exchanges a declaration with one it needs)'''
+    for r in ok:
+        for sc in r["case"]["scopes"]:
+            evs = sc["events"]
+            for i, ev in enumerate(evs):
+                if ev["e"] != "decl" or ev["k"] == "proc":
+                    continue
+                if how == "drop" and ev["n"] in sc["refs"] and not any(
+                        e["e"] == "use" and e["all"] for e in evs):
+                    del evs[i]
+                    return r["id"]
+                if how == "dup":
+                    evs.insert(i, dict(ev))
+                    return r["id"]
+                if how == "swap" and ev["deps"]:
+                    for j in range(i):
+                        if evs[j]["e"] == "decl" and evs[j]["n"] in ev["deps"] \
+                                and evs[j]["k"] == "param":
+                            evs[i], evs[j] = evs[j], evs[i]
+                            return r["id"]
+    raise core.MachineryError("nothing to corrupt")
+
+
 def run(tier, only=None):
     core.setup_psyclone_env()
+    only = only or os.environ.get("PV_C04_ONLY")
     out = core.Outcome("C04", tier, "model_checking", matchers=MATCHERS)
     cov = {"states": 0, "transitions": 0, "traces_validated_against_impl": 0,
            "samples": [], "exhaustive": False}
@@ -244,6 +271,9 @@ def run(tier, only=None):
         for fam in ("decls", "c03prog", "c03nested", "history", "psy"):
             if not stat.get(fam + ":ok"):
                 raise core.MachineryError(f"family {fam} produced no unit: {stat}")
+    if os.environ.get("PV_C04_CORRUPT"):
+        print("[C04] corrupted the trace of unit "
+              + _corrupt(ok, os.environ["PV_C04_CORRUPT"]))
     verdicts, possibly, states, trans = validate([r["case"] for r in ok])
     cov["states"] += states
     cov["transitions"] += trans
